@@ -361,3 +361,20 @@ func streamC02(env *runEnv) {
 		emitPaa(env, idp, s, "unknown", func(int64) string { return abstractPaa(s) })
 	}
 }
+
+// jwtSub reads the sub claim of a compact JWS payload (no verification).
+func jwtSub(tok string) string {
+	seg := strings.Split(tok, ".")
+	if len(seg) != 3 {
+		return ""
+	}
+	pb, err := base64.RawURLEncoding.DecodeString(seg[1])
+	if err != nil {
+		return ""
+	}
+	var c paaClaims
+	if json.Unmarshal(pb, &c) != nil {
+		return ""
+	}
+	return c.Sub
+}
